@@ -122,7 +122,7 @@ CONFIG.rule = ("KSI_TreeBuilder (addDataHash/addMetaData/close) on uniform-level
                "level-overflow sequences failing mid-carry and at close; KSI_BlockSigner_addLeaf with/without blinding mask and per-leaf "
                "metadata, reset at arbitrary points, maximum level. Compared: every return code, root level and hash, every leaf's "
                "extracted chain, final previous-leaf value; oracle: each chain handed out by the implementation recomputes the "
-               "implementation's root by the C03 reference formula. Distinct by op line.")
+               "implementation's root by the C03 reference formula. Distinct by op line. After a refused close (and for forests never closed) every leaf's chain to the top of its sub tree is compared too; closes refused at the second or a later join (255-k, then 2^k-1+extra zeros); metadata with machine id / sequence number / request time of every width.")
 CONFIG.trusted_base = [
     "Lean 4.33.0 kernel; axioms propext, Classical.choice, Quot.sound only",
     "model KsiVerif.Model.Tree hand-written from tree_builder.c / blocksigner.c; tied by harness/exec_c16.c (ASan+UBSan+LSan)",
